@@ -559,12 +559,45 @@ func (g *netGen) genC01() {
 
 func (g *netGen) genC05() {
 	r := g.r
+	if r.chance(0.25) {
+		g.p.Knobs["net_score"] = 1
+	}
+	if r.chance(0.2) {
+		g.p.Knobs["sub_limit"] = float64(g.nt + r.intn(2))
+	}
+	if r.chance(0.3) {
+		// inbound stream handlers that are slow to report a closed stream
+		g.p.Knobs["inbound_exit_delay_us"] = float64([]int{50, 2000, 30000}[r.intn(3)])
+	}
 	if r.chance(0.6) {
 		g.genTopology(0.5)
 	}
 	rounds := r.rng(1, 3)
 	for round := 0; round < rounds; round++ {
+		if r.chance(0.08) {
+			// a link that flaps: whole-peer disconnects and reconnects, then one transient stream reset
+			if a, b := g.randomEdge(); a >= 0 {
+				for k := r.rng(4, 6); k > 0; k-- {
+					g.disconnect(a, b)
+					g.add("adv", int64(r.rng(150, 600)))
+					g.connect(a, b)
+					g.add("adv", int64(r.rng(10, 400)))
+				}
+				if r.chance(0.5) {
+					a, b = b, a
+				}
+				if g.resets[[2]int{a, b}] < 3 {
+					g.resets[[2]int{a, b}]++
+					g.add("reset", int64(a), int64(b), int64(bint(r.chance(0.4))))
+				}
+			}
+		}
 		for k := r.rng(2, 14); k > 0; k-- {
+			if g.p.Knobs["net_score"] == 1 && r.chance(0.15) {
+				// the score falls (or recovers) first, interest changes afterwards
+				g.add("score", int64(r.intn(g.n)), int64(r.intn(g.n)), int64([]int{-100, -100, -15, 0}[r.intn(4)]))
+				g.smallAdv()
+			}
 			g.churnOp(true, true)
 			g.smallAdv()
 		}
